@@ -145,7 +145,7 @@ def applyTok (L : Option Nat) (stv : List G × Bool) (tok : String) : Option (Li
   | ["repeatn", n], g :: st => do
     let n ← n.toNat?
     let over := match L with | some l => decide (n + 1 > l) | none => false
-    pure (repeatN g n :: st, stv.2 || over)
+    pure (g.repeatN n :: st, stv.2 || over)
   | _, _ => keep <|
   match tok.splitOn ":", st with
   | ["arr", xs], st => do
@@ -180,6 +180,10 @@ def applyTok (L : Option Nat) (stv : List G × Bool) (tok : String) : Option (Li
     let i ← init.toInt?
     let f ← parseF2 (":".intercalate f)
     pure (.aggregate g (.val (.int i)) f :: st)
+  | "aggregate1" :: f, g :: st => do
+    let f ← parseF2 (":".intercalate f)
+    pure (g.aggregate1 f :: st)
+  | ["component", i], g :: st => do let i ← i.toNat?; pure (g.component i :: st)
   | ["withcount"], g :: st => some (.withCount g vbeq :: st)
   -- `distinct` (`include.rs:198`): with_count, keep the first occurrences, project
   | ["distinct"], g :: st => some (g.distinct vbeq :: st)
@@ -211,8 +215,8 @@ def applyTok (L : Option Nat) (stv : List G × Bool) (tok : String) : Option (Li
     pure (.zip parts :: st)
   -- `enumerate` (`include.rs:202`): `count(start, offset).zip(a)`
   | ["enumerate", a, b], g :: st => do
-    let f ← parseF L s!"aff:{b}:{a}"
-    pure (.zip [.fromCount (some f), g] :: st)
+    let a ← a.toInt?; let b ← b.toInt?
+    pure (g.enumerate a b :: st)
   | _, _ => none
 
 def buildG (L : Option Nat) (toks : List String) : Option (G × Bool) :=
@@ -283,6 +287,30 @@ def genEngine (f : String) (args : List String) : String :=
       | ["get", i] =>
         match i.toInt? with
         | some i => showRes showV (get L fuel g i)
+        | none => "bad-op"
+      | "first" :: p =>
+        match parseP (":".intercalate p) with
+        | some p => showRes (fun (o : Option V) => match o with | some v => "some " ++ showV v | none => "none") (first L fuel g p)
+        | none => "bad-op"
+      | "any" :: p =>
+        match parseP (":".intercalate p) with
+        | some p => showRes (fun (b : Bool) => toString b) (any L fuel g p)
+        | none => "bad-op"
+      | "all" :: p =>
+        match parseP (":".intercalate p) with
+        | some p => showRes (fun (b : Bool) => toString b) (all L fuel g p)
+        | none => "bad-op"
+      | "count" :: p =>
+        match parseP (":".intercalate p) with
+        | some p => showRes (fun (n : Nat) => toString n) (countIf L fuel g p)
+        | none => "bad-op"
+      | "reduce" :: init :: f2 =>
+        match init.toInt?, parseF2 (":".intercalate f2) with
+        | some i, some f2 => showRes showV (reduce L fuel g (.val (.int i)) f2)
+        | _, _ => "bad-op"
+      | "reduce1" :: f2 =>
+        match parseF2 (":".intercalate f2) with
+        | some f2 => showRes showV (reduce1 L fuel g f2)
         | none => "bad-op"
       | "nth" :: k :: p =>
         match k.toInt?, parseP (":".intercalate p) with
